@@ -291,6 +291,9 @@ func validateDefinition(schema *Schema, def *Definition) *gqlerror.Error {
 			return gqlerror.ErrorPosf(def.Position, "%s %s: must define one or more unique enum values.", def.Kind, def.Name)
 		}
 		for _, value := range def.EnumValues {
+			if err := validateName(value.Position, value.Name); err != nil {
+				return err
+			}
 			for _, nonEnum := range [3]string{"true", "false", "null"} {
 				if value.Name == nonEnum {
 					return gqlerror.ErrorPosf(def.Position, "%s %s: non-enum value %s.", def.Kind, def.Name, value.Name)
